@@ -52,7 +52,7 @@ double errfix(int n, double x)
     {
         t=x/c;
         t=sqrt(t)*(1.-t)*(49*t-102);
-        return t*(.0037/(n*n)+.00078/n+.00006)/n;
+        return t*(.0037/((double)n*n)+.00078/n+.00006)/n;
 	}
 
     t=(x-c)/(.8-c);
@@ -83,7 +83,7 @@ double AD(int n,double z)
     {
         v=x/c;
         v=sqrt(v)*(1.-v)*(49*v-102);
-        return x+v*(.0037/(n*n)+.00078/n+.00006)/n;
+        return x+v*(.0037/((double)n*n)+.00078/n+.00006)/n;
     }
 
     v=(x-c)/(.8-c);
